@@ -33,6 +33,20 @@ def make_tables(seed, nrows=(9, 7), nulls=True, wide=False):
     return {"T1": t1, "T2": t2}
 
 
+_SRC_CACHE = {}
+
+
+def cached_sources(key, tabs, layout):
+    """one source collection per (data, layout) per worker process: the programs replayed by a worker share their
+    sources, as the queries of one user session do (planner caches attached to a source are exercised)"""
+    k = json.dumps([key, sorted((n, list(map(str, v))) for n, v in layout.items())])
+    if k not in _SRC_CACHE:
+        if len(_SRC_CACHE) > 64:
+            _SRC_CACHE.clear()
+        _SRC_CACHE[k] = dask_sources(tabs, layout)
+    return _SRC_CACHE[k]
+
+
 def dask_sources(tabs, layout):
     """layout: {"T1": spec, "T2": spec}; spec = ("from_pandas", npartitions) | ("cuts", [row cut positions], known)"""
     import dask_expr as dx
@@ -167,6 +181,8 @@ def build(q, env, lib, knobs=None):
             import dask_expr as dx
             return dx.concat([x, other], join=q["join"])
         return pd.concat([x, other], join=q["join"])
+    if op == "combinefirst":
+        return x.combine_first(env[q["other"]])
     if op == "sort":
         kw = {}
         if dask:
@@ -215,6 +231,12 @@ def build(q, env, lib, knobs=None):
             kw = {kn: knobs[kn] for kn in ("split_every", "split_out") if kn in knobs}
             return x.value_counts(**kw)
         return x.value_counts()
+    if op == "parts":
+        # partitions[...] is only meaningful relative to a layout: dask side selects, pandas side cannot express it
+        if dask:
+            P = [p for p in q["P"] if p < x.npartitions]
+            return x.partitions[P] if P else x.partitions[[0]]
+        raise NotImplementedError("partitions[...] has no pandas meaning")
     if op == "repart":
         return x.repartition(npartitions=q["n"]) if dask else x
     if op == "shuffle":
@@ -349,7 +371,7 @@ def finalize(results):
 
 
 # --------------------------------------------------------------------------------------------- case generation by TLC
-def gen_queries(focus, depth, *, seed=0, sample=None, sim_num=0, sim_depth=4, chk=None):
+def gen_queries(focus, depth, *, seed=0, sample=None, sim_num=0, sim_depth=4, chk=None, keep=None):
     """enumerate the reachable states of spec/QueryGen.tla (BFS to `depth`), optionally add random behaviours
     (-simulate) of depth sim_depth; returns a list of {q, sc, depth}. `sample`: keep all states of depth <= 1 and a
     seeded sample of this many deeper ones."""
@@ -363,8 +385,8 @@ def gen_queries(focus, depth, *, seed=0, sample=None, sim_num=0, sim_depth=4, ch
         raise tlc.MachineryError(f"QueryGen: {len(cases)} cases for {r.distinct} states")
     rnd = random.Random(seed)
     if sample is not None:
-        shallow = [c for c in cases if c["depth"] <= 1]
-        deep = [c for c in cases if c["depth"] > 1]
+        shallow = [c for c in cases if c["depth"] <= 1 or (keep is not None and keep(c))]
+        deep = [c for c in cases if not (c["depth"] <= 1 or (keep is not None and keep(c)))]
         rnd.shuffle(deep)
         cases = shallow + deep[:sample]
     if sim_num:
